@@ -4,6 +4,7 @@ package c07
 import (
 	"fmt"
 	"os"
+	"strings"
 
 	"github.com/goatcms/goatcore/filesystem/filespace/diskfs"
 	"github.com/goatcms/goatcore/filesystem/filespace/memfs"
@@ -49,7 +50,7 @@ func Gen(rt *rapid.T) Case {
 	c := Case{Remote: fsmodel.Flatten(remote), Disk: hx.Chance(rt, 8, "disk")}
 	c.Ops = fsmodel.GenHistory(rt, fsmodel.GenCfg{MinOps: 1, MaxOps: max, Views: true, OddNames: true, NoisyPaths: true, Initial: remote,
 		DropFailingMutations: true, KeepFailingPct: 35,
-		Weights:              map[string]int{"Remove": 10, "RemoveAll": 8, "ReadDir": 10, "IsExist": 6, "IsDir": 5, "IsFile": 5},
+		Weights: map[string]int{"Remove": 10, "RemoveAll": 8, "ReadDir": 10, "IsExist": 6, "IsDir": 5, "IsFile": 5},
 		Hook: func(m *fsmodel.Model, op *fsmodel.Op) bool {
 			if hx.Excluded(ExRemoveRemote) && removesRemoteNode(remote, m, op) {
 				hx.CountExcluded(ExRemoveRemote)
@@ -118,7 +119,12 @@ func run(c Case) hx.Verdict {
 			refused = pe.Err == fsmodel.Yes
 		}
 		var e fsmodel.Expect
+		var savedRoot *fsmodel.Node
+		var savedViews [][]string
 		if !refused {
+			if fsmodel.Mutating(op.Op) && !canonicalSpelling(op) {
+				savedRoot, savedViews = m.Root.Clone(), append([][]string{}, m.Views...)
+			}
 			e = m.Apply(op)
 			if e.Skip {
 				v.Count("skipped_ops", 1)
@@ -126,16 +132,26 @@ func run(c Case) hx.Verdict {
 			}
 		}
 		o := b.Run(op)
+		if savedRoot != nil && e.Err == fsmodel.No && o.Err != nil && o.Panic == "" {
+			// a mutation under an unusual spelling of its path (trailing slash, dot segments, doubled
+			// slashes) that the cache refuses: the statement is about read answers after the PENDING
+			// operations; a refused one is not pending - nothing the cache shows may have changed
+			m.Root, m.Views = savedRoot, savedViews
+			v.Label("cache-refused-unusual-spelling-of-a-valid-mutation")
+			refused = true
+		}
 		if refused {
 			if o.Panic != "" {
 				return fail(i, "result", fmt.Sprintf("%s panicked: %s", op, o.Panic))
 			}
-			if o.Err == nil {
+			if o.Err == nil && savedRoot == nil {
 				// the cache is more permissive than the tree model here; the statement fixes nothing
 				v.Label("cache-accepted-op-the-model-refuses")
 				return v
 			}
-			v.Label("refused-mutation")
+			if savedRoot == nil {
+				v.Label("refused-mutation")
+			}
 		} else if d := fsmodel.Compare(op, e, o); d != "" {
 			return fail(i, "result", d)
 		}
@@ -194,4 +210,23 @@ func run(c Case) hx.Verdict {
 		v.NonTrivial = true
 	}
 	return v
+}
+
+// canonicalSpelling: every path of the op is its own cleaned form (one leading slash allowed).
+func canonicalSpelling(op fsmodel.Op) bool {
+	ok := func(p string) bool {
+		segs, esc := fsmodel.Resolve(p)
+		if esc {
+			return false
+		}
+		return strings.TrimPrefix(p, "/") == strings.Join(segs, "/")
+	}
+	if !ok(op.Path) {
+		return false
+	}
+	switch op.Op {
+	case "Copy", "CopyFile", "CopyDirectory":
+		return ok(op.Path2)
+	}
+	return true
 }
